@@ -154,7 +154,7 @@ PRIMITIVES = {
         ("lbry.wallet.header.Headers.height", "height = number of headers − 1"),
         ("lbry.wallet.header.Headers.__len__", "number of stored headers"),
         ("lbry.wallet.header.Headers.has_header", "presence of a header"),
-        ("module*:lbry.wallet.util", "ArithUint256: nBits ↔ target, bit length, arithmetic and comparisons of targets"),
+        ("class*:lbry.wallet.util.ArithUint256", "nBits ↔ target, bit length, arithmetic and comparisons of targets"),
         ("class:lbry.wallet.ledger.Ledger", "main-net ledger constants (genesis hash/bits, target timespan, checkpoints reference)"),
     ],
     "C08": [
@@ -653,6 +653,13 @@ def expand_units(prog, unit):
             if c.module is m:
                 out.append((f"class:{q}", "class", c, None))
         return out
+    if unit.startswith("class*:"):
+        c = prog.cls(unit[7:])
+        out = [(f"class:{c.qualname}", "class", c, None)]
+        for q, f in sorted(prog.functions.items()):
+            if f.cls is c and "<locals>" not in q:
+                out.append((q, "function", f, None))
+        return out
     if unit.startswith("module:"):
         return [(unit, "module", prog.module(unit[7:]), names)]
     if unit.startswith("class:"):
@@ -703,8 +710,8 @@ def check(ctx):
             else:
                 ctx.prog.consulted.add(obj.relpath if kind == "module" else obj.module.relpath)
             if r is None:
-                if unit.startswith("module*:"):
-                    continue             # a unit added to a frozen module: nothing relies on it yet
+                if unit.startswith(("module*:", "class*:")):
+                    continue             # a unit added to a frozen module / class: nothing relies on it yet
                 from . import AnalysisError
                 raise AnalysisError(f"{rule}: `{uid}` is listed in lbsa/frozen.py but has no reference in lbsa/primitive_specs.json (run tools/gen_primitive_specs.py)")
             ok, diff = (True, []) if r["digest"] == dg else compare(kind, r["text"], txt, names)
